@@ -34,6 +34,8 @@ type DialOutcome struct {
 	// Serve is run in a new world goroutine with the remote end of an
 	// accepted connection.
 	Serve func(c *Conn)
+	// OnCancel is called when a stalled or delayed dial ends by cancellation.
+	OnCancel func()
 }
 
 // DialAttempt is a logged dial attempt made by the library.
@@ -283,9 +285,9 @@ func (c *Conn) Reset() {
 	c.in, c.peer.in = nil, nil
 }
 
-func (c *Conn) LocalAddr() net.Addr                { return c.local }
-func (c *Conn) RemoteAddr() net.Addr               { return c.remote }
-func (c *Conn) SetDeadline(t time.Time) error      { return nil }
+func (c *Conn) LocalAddr() net.Addr           { return c.local }
+func (c *Conn) RemoteAddr() net.Addr          { return c.remote }
+func (c *Conn) SetDeadline(t time.Time) error { return nil }
 
 // SetReadDeadline sets a virtual read deadline (zero = none).
 func (c *Conn) SetReadDeadline(t time.Time) error {
@@ -412,6 +414,9 @@ func (nw *Network) Dial(ctx context.Context, local net.Addr, address string, con
 	if out.Kind == DialStall {
 		vrt.Recv(done, "net.Dialer.DialContext")
 		setResult("cancelled")
+		if out.OnCancel != nil {
+			out.OnCancel()
+		}
 		return nil, &net.OpError{Op: "dial", Net: "tcp", Addr: ra, Err: ctx.Err()}
 	}
 	if out.Delay > 0 {
